@@ -1,2 +1,72 @@
-(* Properties/C10.v — property theorems only. (stub) *)
+(* Properties/C10.v — With a non-zero gap-open cost Global and Local still return
+   the optimal score: REFUTED on the faithful model (known finding D7).
+   The single (score, step) per cell recurrence of align/global.go:36-47 and
+   align/local.go:47-57 decides the gap-open charge from the step stored in the
+   predecessor cell only, so it is not the affine optimum.  The full statement stays
+   here as a Definition; below it the two refutations (witnesses evaluated by
+   vm_compute on the model; the check replays them on the implementation), and what
+   does hold. *)
+From Coq Require Import String.
 From Bio Require Import Base.
+From Bio.Model Require Import Align.
+From Bio.Spec Require Import AlignSpec.
+From Bio.Proofs Require Import AlignProofs AlignProofsB AlignProofsC.
+Open Scope Z_scope.
+
+(* The property as stated: for every matrix with gap-open <> 0 and non-positive gap
+   scores, no alignment of a and b scores above Global's answer and no alignment of
+   a pair of substrings scores above Local's answer. *)
+Definition C10_statement : Prop :=
+  forall m a b o, covers m a b -> nonpos_gaps m a b -> gap_open m = Ok o -> o <> 0 ->
+    (exists gs, global_score m a b = Ok gs /\
+       forall al s, consumes al = (length a, length b) -> score m a b al = Ok s -> s <= gs)
+    /\ (exists ls, local_score m a b = Ok ls /\
+       forall i j al s, score m (skipn i a) (skipn j b) al = Ok s -> s <= ls).
+
+(* Global("a", "aaab"), match 1, mismatch -1, gap -1, gap-open -2 returns -6
+   (III M); the alignment M III scores -4. *)
+Theorem C10_global_affine_refuted :
+  exists m a b o, covers m a b /\ nonpos_gaps m a b /\ gap_open m = Ok o /\ o <> 0
+    /\ exists al s gs, consumes al = (length a, length b) /\ score m a b al = Ok s
+         /\ global_score m a b = Ok gs /\ gs < s.
+Proof. exact global_affine_refuted. Qed.
+Print Assumptions C10_global_affine_refuted.
+
+(* Local("ababba", "aaaa"), match 2, mismatch 0, gap 0, gap-open -1 returns 4;
+   the alignment MMM DD M of the whole of a with b[0..4) scores 5. *)
+Theorem C10_local_affine_refuted :
+  exists m a b o, covers m a b /\ nonpos_gaps m a b /\ gap_open m = Ok o /\ o <> 0
+    /\ exists i j al s ls, score m (skipn i a) (skipn j b) al = Ok s
+         /\ local_score m a b = Ok ls /\ ls < s.
+Proof. exact local_affine_refuted. Qed.
+Print Assumptions C10_local_affine_refuted.
+
+Theorem C10_statement_refuted : ~ C10_statement.
+Proof. exact affine_optimal_statement_false. Qed.
+Print Assumptions C10_statement_refuted.
+
+(* What does hold (partial): with gap-open <= 0, the score of Global (Local) is at
+   least the score of every alignment (of every pair of substrings) under LINEAR gap
+   costs (gap-open charged on every gap step); by C08_global_valid / C08_local_valid
+   it is at most the affine optimum, being the score of a real alignment.  Missing
+   with respect to C10_statement: equality with the affine optimum, which is false. *)
+Theorem C10_global_affine_lower_partial : forall m a b o, covers m a b -> gap_open m = Ok o -> o <= 0 ->
+  exists gs, global_score m a b = Ok gs /\
+    forall al s, consumes al = (length a, length b) -> score_linear m a b al = Ok s -> s <= gs.
+Proof. exact global_affine_lower. Qed.
+Print Assumptions C10_global_affine_lower_partial.
+
+Theorem C10_local_affine_lower_partial : forall m a b o, covers m a b -> gap_open m = Ok o -> o <= 0 ->
+  exists ls, local_score m a b = Ok ls /\
+    forall i j al s, score_linear m (skipn i a) (skipn j b) al = Ok s -> s <= ls.
+Proof. exact local_affine_lower. Qed.
+Print Assumptions C10_local_affine_lower_partial.
+
+(* The witnesses, concretely (these are the corpus cases of corpus/C10.txt). *)
+Example C10_example_witnesses :
+  global d7_global_m (bs "a") (bs "aaab") = Ok ([SIns; SIns; SIns; SMatch], -6)
+  /\ score d7_global_m (bs "a") (bs "aaab") [SMatch; SIns; SIns; SIns] = Ok (-4)
+  /\ score_linear d7_global_m (bs "a") (bs "aaab") [SMatch; SIns; SIns; SIns] = Ok (-8)
+  /\ local d7_local_m (bs "ababba") (bs "aaaa") = Ok ([SMatch; SMatch; SMatch], 0, 0, 4)
+  /\ score d7_local_m (bs "ababba") (bs "aaaa") [SMatch; SMatch; SMatch; SDel; SDel; SMatch] = Ok 5.
+Proof. vm_compute. repeat split; reflexivity. Qed.
